@@ -107,7 +107,8 @@ def grammar_tags(rng, cigar, n=None, repeats=True, forced=None, ds=True):
     if rng.random() < 0.004:
         # the grammar puts no bound on the number of digits of an integer field (an interpreter does:
         # CPython refuses int() of more than 4300 digits by default)
-        out.insert(rng.randint(0, len(out)), "zn:i:" + rng.choice(["", "-", "+"]) + "".join(rng.choice("0123456789") for _ in range(rng.randint(4301, 9000))))
+        big_tag = next(t for t in ("zn", "yn", "xn", "wn", "vn", "un", "tn", "sn", "rn", "qn", "pn", "on", "mn") if t not in used)
+        out.insert(rng.randint(0, len(out)), big_tag + ":i:" + rng.choice(["", "-", "+"]) + "".join(rng.choice("0123456789") for _ in range(rng.randint(4301, 9000))))
     if ds and rng.random() < 0.3:
         out.insert(rng.randint(0, len(out)), f"ds:Z:{grammar_value(rng, 'Z')}")
     if rng.random() < 0.5:
